@@ -261,6 +261,26 @@ CLAIMED["C22"] = dict(
         "(the writer was handed a sealed buffer's array). " + TRUST,
    design="DESIGN.md §4 C22")
 
+CLAIMED["C18"] = dict(
+   text="Proof-level guard obligations on the real filer functions (store opaque): Filer.UpdateEntry reaches the store only for an update that keeps the kind (file vs "
+        "directory) and fails without touching the store otherwise; ensureParentDirecotryEntry succeeds for a level only if what is stored at that path is a directory "
+        "(an existing entry must have the directory bit - any other mode, e.g. a symlink, is refused) and what it inserts is a directory entry for exactly that path, "
+        "after the level above was ensured successfully; CreateEntry inserts only after the parents were ensured successfully; DeleteEntryMetaAndData removes a "
+        "directory entry only after the removal of its children succeeded (a refused non-recursive delete of a non-empty directory changes nothing).",
+   note="Guard obligations (order and arguments of calls), not a proof of the tree invariant over histories; the store implementations, transactions, rename (CanRename, "
+        "moveEntry) and the listing loop inside doBatchDeleteFolderMetaAndData (assumed not to modify the entry) are not decided here; memory safety of the abstracted "
+        "functions is assumed. " + TRUST,
+   design="DESIGN.md §4 C18")
+CLAIMED["C21"] = dict(
+   text="Proof-level kernel: FilerStoreWrapper.DeleteHardLink releases exactly one name - the stored counter goes down by one (32-bit exact), the shared record is deleted "
+        "when no name is left and re-encoded and written back otherwise, nothing is written when the record is missing; handleUpdateToHardLinks always refreshes the "
+        "shared record of a hard linked entry and, when the name belonged to another identity, releases exactly that old identity (guard at the DeleteHardLink call: the "
+        "id passed is the existing entry's); the wrapper's UpdateEntry runs that step on every path before the per-name entry is written, and writes the per-name "
+        "entry exactly when it succeeded.",
+   note="protobuf encoding of the shared record is abstract (kvCounter ghost function), the key/value store and the per-name stores are opaque; link counting across "
+        "histories (who increments), rename (moveSelfEntry does not carry the hard link fields - noticed, not investigated) and FUSE link creation are not decided. " + TRUST,
+   design="DESIGN.md §4 C21")
+
 NA = {
  "C03":"crash-point property over byte-level truncation of two persistent files; no per-function contract within reach decides it (DESIGN §4 C03)",
  "C10":"needs inductive tree predicates and cardinality reasoning over interface-typed nodes in pointer maps with randomised picking (DESIGN §4 C10)",
